@@ -3,6 +3,8 @@ import Proofs.Lemmas.AliasExport
 Helper lemmas for C18: the choice made for each group of aliases, the `replacements` dict, the
 `PREFERRED_NAMES` check of the constructor.
 -/
+set_option linter.unusedSectionVars false
+set_option linter.unusedSimpArgs false
 namespace Fsic.Alias
 variable {α : Type} [DecidableEq α]
 
@@ -309,5 +311,41 @@ theorem uniquePref_of_check {m : AMap α} (hwf : WF m) (hc : chained m = false) 
       exact resolve_of_not_key fun hk => (not_chained_iff m).mp hc _ hk ht
   intro x hx y hy hxg hyg
   exact inj_of_nodup_map (resolve m) hnd hx hy (by rw [hres x hxg, hres y hyg])
+
+end Fsic.Alias
+
+namespace Fsic.Alias
+variable {α : Type} [DecidableEq α]
+
+/-- Whatever the export does to a label, the new label is the old one or an alias of it. -/
+theorem exportCols_shape {δ : Type} (le : α → α → Bool) (m : AMap α) (pref : List α) (cols out : List (α × δ))
+    (h : exportCols le m pref cols = some out) :
+    ∃ f : α → α, out = renameDf f cols ∧ ∀ c, f c = c ∨ (f c, c) ∈ m := by
+  unfold exportCols at h
+  split at h
+  · cases h
+    refine ⟨_, rfl, ?_⟩
+    intro c
+    cases hg : invGet m c with
+    | none => simp
+    | some k => exact Or.inr (by simpa using invGet_some_mem hg)
+  · unfold exportPref at h
+    cases hr : replacements pref (groups (sortByVal le m)) with
+    | none => rw [hr] at h; cases h
+    | some r =>
+      rw [hr] at h
+      cases h
+      refine ⟨_, rfl, ?_⟩
+      intro c
+      cases hg : getLast r c with
+      | none => simp
+      | some x =>
+        obtain ⟨g, hgm, hg1, hch⟩ := (mem_replacements hr c x).mp (getLast_some_mem hg)
+        rcases choose_rename_mem hch with hx | hx
+        · right
+          have := (groups_sound _ g hgm).2 x hx
+          rw [hg1] at this
+          simpa using (mem_sortByVal le m _).mp this
+        · left; simp [hx, hg1]
 
 end Fsic.Alias
